@@ -60,3 +60,46 @@ theorem lda_discriminant_eq (d : Nat) (C z m : Nat → Nat → Rat) (logPrior : 
   ring
 
 end SharkVerif.Trainers
+
+namespace SharkVerif.Trainers
+
+/-- summing the per-class parts over all classes gives the whole sum -/
+theorem rsum_class_split (l : List (Vec × Nat)) (classes : Nat) (f : Vec × Nat → Rat)
+    (hlab : ∀ p ∈ l, p.2 < classes) :
+    rsum classes (fun c => lsum l (fun p => if p.2 = c then f p else 0)) = lsum l f := by
+  rw [← lsum_rsum_comm]
+  apply lsum_congr
+  intro p hp
+  have : ∀ c, (if p.2 = c then f p else 0) = (if p.2 = c then (fun _ => f p) c else 0) := fun c => rfl
+  rw [rsum_congr (fun c _ => this c), rsum_ite_eq]
+  simp [hlab p hp]
+
+theorem class_part_eq (bs : CData) (c j : Nat) :
+    classCount bs c * ldaMean bs c j = bsum bs (fun p => if p.2 = c then p.1.at j else 0) := by
+  unfold ldaMean
+  by_cases h0 : classCount bs c = 0
+  · -- no example of class c: both sides are 0
+    rw [h0, zero_mul]
+    unfold classCount at h0
+    rw [bsum_eq_flatten] at h0 ⊢
+    have hz := lsum_eq_zero_of_nonneg (f := fun p : Vec × Nat => if p.2 = c then (1 : Rat) else 0)
+      (fun p _ => by by_cases h : p.2 = c <;> simp [h]) h0
+    symm
+    rw [lsum_congr (g := fun _ => 0) (fun p hp => by
+      have := hz p hp
+      by_cases h : p.2 = c
+      · simp [h] at this
+      · simp [h])]
+    exact lsum_zero _
+  · field_simp
+
+/-- `Σ_c n_c·m_c / n` is the mean of the inputs (every dataset, partition, class assignment) -/
+theorem fisherMean_eq_mean (bs : CData) (classes : Nat) (j : Nat) (hlab : ∀ p ∈ bs.flatten, p.2 < classes) :
+    fisherMean bs classes j = mean (bs.map fun b => b.map Prod.fst) j := by
+  unfold fisherMean
+  rw [rsum_div, rsum_congr (fun c _ => class_part_eq bs c j)]
+  simp only [bsum_eq_flatten]
+  rw [rsum_class_split bs.flatten classes (fun p => p.1.at j) hlab, mean_flat, flatten_map_map, lsum_map,
+    List.length_map, count_eq_flatten]
+
+end SharkVerif.Trainers
